@@ -93,7 +93,13 @@ impl Envelope {
     /// Returns an error if the data is not valid CBOR or does not represent
     /// a valid envelope structure.
     pub fn try_from_cbor_data(data: Vec<u8>) -> Result<Self> {
-        let cbor = CBOR::try_from_data(data)?;
+        let cbor = CBOR::try_from_data(&data)?;
+        // Only deterministic CBOR is an envelope: what was read must re-encode
+        // to exactly the bytes given (the CBOR decoder lets some reducible
+        // floating-point encodings through and normalizes them).
+        if cbor.to_cbor_data() != data {
+            anyhow::bail!("envelope data is not deterministic CBOR")
+        }
         Self::try_from_cbor(cbor)
     }
 }
